@@ -12,6 +12,9 @@ use super::*;
 static mut TAN_ND: [f32; 2] = [0.0; 2];
 static mut TAN_CALLS: usize = 0;
 static mut TAN_LAST_ARG: f32 = 0.0;
+static mut TAN_ND3: [f32; 3] = [0.0; 3];
+static mut TAN_CALLS3: usize = 0;
+static mut USE_POOL3: bool = false;
 
 fn tan_contract(x: f32, y: f32) -> bool {
     if !(x >= 0.0 && x < TAN_XMAX) {
@@ -38,6 +41,14 @@ fn tan_contract(x: f32, y: f32) -> bool {
 
 fn tan_model(x: f32) -> f32 {
     unsafe {
+        if USE_POOL3 {
+            let k = if TAN_CALLS3 < 3 { TAN_CALLS3 } else { 2 };
+            let y = TAN_ND3[k];
+            TAN_CALLS3 += 1;
+            TAN_LAST_ARG = x;
+            kani::assume(tan_contract(x, y));
+            return y;
+        }
         let k = if TAN_CALLS < 2 { TAN_CALLS } else { 1 };
         let y = TAN_ND[k];
         TAN_CALLS += 1;
@@ -237,6 +248,83 @@ macro_rules! c14_pole_placement {
             vassert!(c.b0 <= 0.0314, "C14/pole/first-sample-factor:1-b0>=0.9686");
             vcover!(k == 10240, "witness: 10 s");
             vcover!(n < 101.0, "witness: about 100 samples per t");
+        }
+    };
+}
+
+// @family prop=C17 name=c17_glide_any_time macro=c17_glide_any_time n=6 quick=0,2 thorough=all timeout=1500 stub=1
+// @about slice = sample rate as above: GlideProcessor::new(fs), set_time(t) for ANY finite f32 t >= 0 (subnormals, huge values), then process(x) twice for any finite x with |x| <= 1e6: no panic (the unwrap of the coefficient design never fires: the cutoff is clamped inside [0.1, fs/4]) and finite outputs. tan replaced by its contract
+macro_rules! c17_glide_any_time {
+    ($name:ident, $k:expr) => {
+        #[kani::proof]
+        #[kani::stub(f32::tan, tan_model)]
+        fn $name() {
+            draw_tan();
+            let fs: f32 = RATES[$k];
+            let mut gp = GlideProcessor::new(fs);
+            let t: f32 = kani::any();
+            kani::assume(t >= 0.0 && t.is_finite());
+            gp.set_time(t);
+            let c = coeffs_of(&mut gp);
+            vassert!(legal(&c), "C13/set_time/coefficients-are-a-legal-one-pole-lowpass");
+            let x: f32 = kani::any();
+            kani::assume(x >= -1.0e6 && x <= 1.0e6);
+            let y0 = gp.process(x);
+            let y1 = gp.process(x);
+            vassert!(y0.is_finite() && y1.is_finite(), "C17/glide/finite-output");
+            vcover!(t > 1.0e30, "witness: huge time");
+            vcover!(t > 0.0 && t < 1.0e-38, "witness: subnormal time");
+        }
+    };
+}
+
+// @family prop=C13 name=c13_history macro=c13_history n=6 quick=1 thorough=1,2 tseeded=0 timeout=3000 stub=1
+// @about public API only, slice = sample rate: new(fs); set_time(t0) with t0 in {0, 0.001, 0.01, 0.1, 1, 10} (symbolic choice; 0 = glide off); process(x0); process(x1); set_time(t1) (same choices, may be ignored by the dead band); process(x2) -- inputs on a 2^-6 grid in [-1,1]: every returned output lies within the hull of the inputs seen so far and the previous RETURNED output (+- 8 ulp), in particular after the glide was switched off and on again; with x2 == x1 the last output does not move away from the held input. tan replaced by its contract
+macro_rules! c13_history {
+    ($name:ident, $k:expr) => {
+        #[kani::proof]
+        #[kani::stub(f32::tan, tan_model)]
+        fn $name() {
+            unsafe { TAN_ND3 = [kani::any(), kani::any(), kani::any()]; TAN_CALLS3 = 0; USE_POOL3 = true; }
+            let fs: f32 = RATES[$k];
+            let times: [f32; 6] = [0.0, 0.001, 0.01, 0.1, 1.0, 10.0];
+            let i0: usize = kani::any();
+            let i1: usize = kani::any();
+            kani::assume(i0 < 6 && i1 < 6);
+            let g: [i8; 3] = kani::any();
+            kani::assume(g[0] >= -64 && g[0] <= 64 && g[1] >= -64 && g[1] <= 64 && g[2] >= -64 && g[2] <= 64);
+            let (x0, x1, x2) = (g[0] as f32 / 64.0, g[1] as f32 / 64.0, g[2] as f32 / 64.0);
+            let tol = 8.0 * 1.1920929e-7;
+            let mut gp = GlideProcessor::new(fs);
+            gp.set_time(times[i0]);
+            let y0 = gp.process(x0);
+            let lo0 = if x0 < 0.0 { x0 } else { 0.0 };
+            let hi0 = if x0 > 0.0 { x0 } else { 0.0 };
+            vassert!(y0 >= lo0 - tol && y0 <= hi0 + tol, "C13/history/first-output-between-0-and-first-input");
+            let y1 = gp.process(x1);
+            let lo1 = if x1 < lo0 { x1 } else { lo0 };
+            let hi1 = if x1 > hi0 { x1 } else { hi0 };
+            vassert!(y1 >= lo1 - tol && y1 <= hi1 + tol, "C13/history/output-within-range-of-inputs-seen-so-far");
+            gp.set_time(times[i1]);
+            let y2 = gp.process(x2);
+            // hull of the new input, the previous input and the previous RETURNED output
+            let mut lo = if x2 < x1 { x2 } else { x1 };
+            if y1 < lo { lo = y1; }
+            let mut hi = if x2 > x1 { x2 } else { x1 };
+            if y1 > hi { hi = y1; }
+            vassert!(y2 >= lo - tol && y2 <= hi + tol, "C13/history/output-continues-from-previous-output-after-set_time");
+            if x2 == x1 {
+                let e1 = x2 - y1;
+                let e2 = x2 - y2;
+                if e1 >= 0.0 {
+                    vassert!(e2 >= -tol && e2 <= e1 + tol, "C13/history/held-input:monotone-approach-across-set_time");
+                } else {
+                    vassert!(e2 <= tol && e2 >= e1 - tol, "C13/history/held-input:monotone-approach-across-set_time");
+                }
+            }
+            vcover!(i0 == 0 && i1 == 3 && x1 != 0.0, "witness: glide switched off, then on again");
+            vcover!(i0 == 4 && i1 == 0, "witness: glide off in mid-glide");
+            vcover!(i0 == i1, "witness: second set_time ignored");
         }
     };
 }
